@@ -12,7 +12,7 @@ Definition cinit (c : cell) : Prop := cell_init cfg c = true.
 Definition cells_ok (cs : list cell) : Prop := Forall cinit cs.
 Definition blk_wf (blk : block) : Prop := 0 < b_size blk /\ length (b_cells blk) = Z.to_nat (b_size blk).
 Definition dead_ok (blk : block) : Prop :=
-  b_live blk = false -> c_trivial cfg = false -> all_raw (b_cells blk) = true.
+  b_live blk = false -> c_tdtor cfg = false -> all_raw (b_cells blk) = true.
 
 Definition owner_of (s : state) (b : nat) (r : nat) : Prop :=
   exists a, get_slot s r = Some a /\ 0 < nel a /\ a_base a = PBlk b.
